@@ -13,15 +13,16 @@ def listState (st : PState) (nodes' : Array ParseNode) (info : Info) : PState :=
             checkForList := false, nextParent := some st.nodes.size, lastLeft := some st.nodes.size,
             previousSecondDef := .binaryLeftToRight }
 
-theorem comp_trivia_true (s : SecDef) (hs : s = .whitespace ∨ s = .annotation) (x : SecDef)
+theorem comp_trivia_true (s : SecDef) (hs : s = .whitespace ∨ s = .annotation ∨ s = .subexpression) (x : SecDef)
     (hx : x = .unaryPrefix ∨ x = .startGrouping ∨ x = .value ∨ x = .identifier) : checkComposition s x true = true := by
-  rcases hs with rfl | rfl <;> rcases hx with rfl | rfl | rfl | rfl <;> rfl
+  rcases hs with rfl | rfl | rfl <;> rcases hx with rfl | rfl | rfl | rfl <;> rfl
 
 /-- list mode, first token of the operand is a prefix operator -/
 theorem step_list_prefix (st : PState) (ug : Option Nat) (p : PToken) (hp : isPrefixTok p = true)
     (hug : underGroupOf st = .ok ug) (hadj : adjustLastLeft st ug = .ok st) (hnnl : st.nextLastLeft = none)
     (hcfl : st.checkForList = true)
-    (hprev : st.previousSecondDef = .whitespace ∨ st.previousSecondDef = .annotation)
+    (hprev : st.previousSecondDef = .whitespace ∨ st.previousSecondDef = .annotation ∨
+      st.previousSecondDef = .subexpression)
     {nodes' : Array ParseNode} {info : Info}
     (hpt : parseToken st.nodes.size .list st.lastLeft (some (st.nodes.size + 1)) st.nodes ug false = .ok (nodes', info)) :
     step st p false = .ok (stepP (listState st nodes' info) p) := by
@@ -51,7 +52,8 @@ theorem step_list_prefix (st : PState) (ug : Option Nat) (p : PToken) (hp : isPr
 theorem step_list_open (st : PState) (ug : Option Nat) (o : PToken) (ho : isOpenTok o = true)
     (hug : underGroupOf st = .ok ug) (hadj : adjustLastLeft st ug = .ok st) (hnnl : st.nextLastLeft = none)
     (hcfl : st.checkForList = true)
-    (hprev : st.previousSecondDef = .whitespace ∨ st.previousSecondDef = .annotation)
+    (hprev : st.previousSecondDef = .whitespace ∨ st.previousSecondDef = .annotation ∨
+      st.previousSecondDef = .subexpression)
     {nodes' : Array ParseNode} {info : Info}
     (hpt : parseToken st.nodes.size .list st.lastLeft (some (st.nodes.size + 1)) st.nodes ug false = .ok (nodes', info)) :
     step st o false = .ok (stepO (listState st nodes' info) o) := by
@@ -80,7 +82,8 @@ def listValue (st : PState) (nodes' : Array ParseNode) (info : Info) (a : PToken
 theorem step_list_value (st : PState) (ug : Option Nat) (a : PToken) (il : Bool) (ha : isAtom10 a = true)
     (hug : underGroupOf st = .ok ug) (hadj : adjustLastLeft st ug = .ok st) (hnnl : st.nextLastLeft = none)
     (hcfl : st.checkForList = true)
-    (hprev : st.previousSecondDef = .whitespace ∨ st.previousSecondDef = .annotation)
+    (hprev : st.previousSecondDef = .whitespace ∨ st.previousSecondDef = .annotation ∨
+      st.previousSecondDef = .subexpression)
     {nodes' : Array ParseNode} {info : Info}
     (hpt : parseToken st.nodes.size .list st.lastLeft (some (st.nodes.size + 1)) st.nodes ug false = .ok (nodes', info))
     (hir : info.right = some (st.nodes.size + 1)) :
